@@ -35,6 +35,11 @@ Clause -> case family
   comments                                   hyp 0..4 lines; enum/comments + hyp: 5..40, 99..101 lines
   format dispatch by suffix                  hyp: .eds/.EDS/.Eds/.dcf/.DCF/.Dcf; path, StringIO with
                                              .name, open file; LF and CRLF
+  "all data types" x default/parameter value enum/time + hyp: TIME_OF_DAY / TIME_DIFFERENCE with values
+  "for every ... text" (repeated use of a    hist/reimport: one path, text replaced / kept, time stamp older /
+  path)                                      equal / newer, 2..6 imports, each judged against its own text
+  lookup routes after re-configuration       hist/reconfigure: replace / delete / add / add_member through the
+                                             dictionary's own interface, routes compared after every step
 """
 import atexit
 import io
@@ -70,6 +75,17 @@ RULE = ("case = (abstract dictionary model, node-id argument, source kind, file 
         "by the property compared with the model (PDO-mappability also on the elements a compact array "
         "without name list produces on demand); all lookup routes must reach the identical object; "
         "iteration must yield exactly the described indices / sub-indices (order not demanded). "
+        "TIME_OF_DAY / TIME_DIFFERENCE objects carry default and parameter values too (numbers 0..2^48-1 in "
+        "every spelling, at VAR / member / compact element; enum/time + drawn). Histories: (1) hist/reimport: "
+        "2..4 (thorough 6) imports from ONE path whose text is replaced / kept between imports, node id and "
+        "source (path / open file) varying, the file's time stamp set by the case to older / equal / newer than "
+        "before (os.utime with fixed numbers) - every import is judged against the text then in the file; "
+        "(2) hist/reconfigure: a dictionary imported and fully looked up is re-configured through its own "
+        "interface with objects of a second imported text that carry the same index and name but other content "
+        "(od[i]=x, od[name]=x, add_object, del od[i], del od[name], add_member of a same-sub same-name member), "
+        "1..5 (thorough 8) steps; after every step all lookup routes (index, name, [sub], [child], "
+        "'Parent.Child', get_variable) must reach the identical object put there and keys that name nothing "
+        "any more must raise KeyError. "
         "Non-trivial = text with a signed limit, an odd-width type, a relative value, a compact array or a "
         "record; distinct = canonical JSON of the case.")
 ASSUMPTIONS = [
@@ -88,6 +104,17 @@ ASSUMPTIONS = [
     "'Parent.Child' is not tried when the parent's own name contains '.' (inherently ambiguous)",
     "REAL defaults are the Python float of the decimal text (no rounding to binary32 demanded)",
     "StorageLocation / Factor / Unit / Description are compared too (read verbatim by the importer)",
+    "a TIME_OF_DAY / TIME_DIFFERENCE value is described as a number (0..2^48-1, decimal or hex); the imported "
+    "value may be that int or its 6-byte little-endian image",
+    "what an import yields depends on the text in the file at the time of the call and on the node id only: the "
+    "file's modification time (set with os.utime to fixed numbers, never read from the clock) and earlier "
+    "imports from the same path are not inputs the property names",
+    "the lookup sentence is taken to hold for the imported dictionary also after it was re-configured through "
+    "ObjectDictionary's own interface (anchor: indices/names 'must stay consistent' in add_object / "
+    "add_member); only unambiguous re-configurations are made: same index AND same name replaced, unused "
+    "index and name added, object deleted, member of same sub-index and name replaced; a replacement under "
+    "another name, and any step that would make a 'Parent.Child' string equal to another key, is skipped; "
+    "'Var.x' on a plain variable is not judged",
 ]
 BUDGET = {"quick": 150, "thorough": 240}
 
@@ -104,6 +131,7 @@ DEVINFO_ATTR = {
     "GroupMessaging": "group_messaging", "NrOfRXPDO": "nr_of_RXPDO", "NrOfTXPDO": "nr_of_TXPDO",
     "LSS_Supported": "LSS_supported",
 }
+TIME_TYPES = (0x0C, 0x0D)                 # TIME_OF_DAY, TIME_DIFFERENCE (CiA 301: 48-bit structures)
 SUFFIXES = {"eds": [".eds", ".EDS", ".Eds"], "dcf": [".dcf", ".DCF", ".Dcf"]}
 BASENAMES = ["dev", "my.device.v2", "a b", "x.dcf.eds.old"]
 
@@ -131,6 +159,11 @@ def same_value(dt, got, exp):
         return isinstance(got, float) and rc.float_bits_equal(got, float(exp))
     if dt in em.TEXT_TYPES:
         return isinstance(got, str) and got == exp
+    if dt in TIME_TYPES:
+        # described as a number (48-bit structure): the number itself, or its 6-byte CiA 301 image
+        if isinstance(got, (bytes, bytearray)):
+            return len(got) == 6 and int.from_bytes(bytes(got), "little") == exp
+        return isinstance(got, int) and not isinstance(got, bool) and got == exp
     return isinstance(got, (bytes, bytearray)) and bytes(got) == exp
 
 
@@ -193,7 +226,7 @@ class _Cmp:
                 ok = isinstance(g, int) and not isinstance(g, bool) and g == exp
             if not ok:
                 neg = "negative" if exp is not None and exp < 0 else "plain"
-                self.bad(f"limit/{attr}/{neg}", f"{where}: {attr} {g!r} want {exp!r} ({rc.NAMES[dt]})")
+                self.bad(f"limit/{attr}/{neg}", f"{where}: {attr} {g!r} want {exp!r} ({rc.NAMES.get(dt, dt)})")
         if got.storage_location != v["storage"]:
             self.bad("ext/storage", f"{where}: storage_location {got.storage_location!r} want {v['storage']!r}")
         want = 1 if v["factor"] is None else v["factor"]
@@ -389,32 +422,296 @@ def import_text(text, case, doc):
         return canopen.import_od(f, node_arg)
 
 
-def run_case(case) -> Outcome:
-    model = case["model"]
-    ex = em.excluded_class(model)
-    if ex:
-        return Outcome(excluded=ex)
+def _klass_of(case, model, nt):
+    mode = ("explicit" if case["node_arg"] is not None else
+            "file" if model["commissioning"] and model["commissioning"]["node_id"] is not None else "absent")
+    family = case.get("family", "hyp")
+    return (f"{family}/node-{mode}" if family != "hyp" else
+            f"hyp/{model['doc']}/node-{mode}/" + ("+".join(nt) or "plain"))
+
+
+def _features_nt(model):
     feats = em.features(model)
     for f in feats:
         _feature_counts[f] += 1
-    mode = ("explicit" if case["node_arg"] is not None else
-            "file" if model["commissioning"] and model["commissioning"]["node_id"] is not None else "absent")
-    nt = sorted(feats & set(_FEATURES_NT))
-    family = case.get("family", "hyp")
-    klass = (f"{family}/node-{mode}" if family != "hyp" else
-             f"hyp/{model['doc']}/node-{mode}/" + ("+".join(nt) or "plain"))
+    if any(v["dt"] in TIME_TYPES and (v["default"] is not None or v["value"] is not None)
+           for _o, v in em.all_vars(model)):
+        _feature_counts["timeval"] += 1
+    return sorted(feats & set(_FEATURES_NT))
+
+
+def _import_and_compare(model, how, importer=None):
+    """Import the rendered model the way `how` says and compare everything the property names.
+    -> (od or None, [Discrepancy])"""
     text = em.render(model)
     try:
-        od = import_text(text, case, model["doc"])
+        od = (importer or import_text)(text, how, model["doc"])
     except Exception as e:
-        return Outcome(bool(nt), klass, [Discrepancy(
-            f"C08/import-raises/{type(e).__name__}", f"import_od raised {type(e).__name__}: {e}")])
-    c = _Cmp(model, case["node_arg"])
+        return None, [Discrepancy(f"C08/import-raises/{type(e).__name__}",
+                                  f"import_od raised {type(e).__name__}: {e}")]
+    c = _Cmp(model, how["node_arg"])
     try:
         c.run(od)
     except Exception as e:                           # the dictionary itself misbehaves
         c.bad(f"lookup-raises/{type(e).__name__}", f"{type(e).__name__}: {e}")
-    return Outcome(bool(nt), klass, c.D)
+    return od, c.D
+
+
+def run_case(case) -> Outcome:
+    if "steps" in case:
+        return run_reimport(case)
+    if "ops" in case:
+        return run_reconfigure(case)
+    model = case["model"]
+    ex = em.excluded_class(model)
+    if ex:
+        return Outcome(excluded=ex)
+    nt = _features_nt(model)
+    klass = _klass_of(case, model, nt)
+    _od, D = _import_and_compare(model, case)
+    return Outcome(bool(nt), klass, D)
+
+
+# ---- history 1: the same path imported again after its text was replaced ---------------------------------
+# "For every well-formed EDS or DCF text, the imported dictionary contains exactly the described objects":
+# what an import yields is a function of the text that is in the file at the time of the call (and of the
+# node id argument) - not of what was imported from that path before, and not of the file's time stamp,
+# which the property never mentions.  The file's modification time is therefore SET (os.utime, fixed
+# numbers from the case: older / equal / newer than at the previous import - what `cp -p`, restoring a
+# backup, unpacking an archive or a rewrite within one time-stamp tick leave behind); no wall clock.
+MTIME_BASE = 1_500_000_000                 # seconds; an arbitrary fixed instant
+MTIME_STEPS = [0, 0, -1, 1, -86400, 3600]
+
+
+def _history_path(case, doc):
+    suffix = SUFFIXES[doc][case.get("suffix", 0)]
+    base = BASENAMES[case.get("base", 0)]
+    return os.path.join(scratch_dir(), f"{os.getpid()}-hist-{base}{suffix}")
+
+
+def run_reimport(case) -> Outcome:
+    import canopen
+    steps = case["steps"]
+    doc = steps[0]["model"]["doc"]
+    for st_ in steps:
+        if st_["model"] is not None:
+            ex = em.excluded_class(st_["model"])
+            if ex:
+                return Outcome(excluded=ex)
+            if st_["model"]["doc"] != doc:
+                raise ValueError("all steps of a re-import history share one document type")
+    path = _history_path(case, doc)
+    mtime = MTIME_BASE
+    model = None
+    contents = 0
+    stale = False
+    nt_any = False
+    D = []
+    try:
+        for n, st_ in enumerate(steps):
+            if st_["model"] is not None:
+                if model is not None and st_["model"] != model:
+                    contents += 1
+                    stale = stale or MTIME_STEPS[st_["mtime"]] <= 0
+                model = st_["model"]
+                text = em.render(model)
+                if case.get("crlf"):
+                    text = text.replace("\n", "\r\n")
+                with open(path, "w", newline="") as f:
+                    f.write(text)
+                if n:
+                    mtime += MTIME_STEPS[st_["mtime"]]
+                os.utime(path, (mtime, mtime))
+            nt_any = bool(_features_nt(model)) or nt_any
+
+            def importer(_text, how, _doc):
+                if how["source"] == "path":
+                    return canopen.import_od(path, node_id=how["node_arg"])
+                with open(path) as f:
+                    return canopen.import_od(f, how["node_arg"])
+            _od, D = _import_and_compare(model, st_, importer)
+            if D:
+                d = D[0]
+                D = [Discrepancy(d.signature, f"import {n + 1} of {len(steps)} from the same path "
+                                              f"(text {'kept' if st_['model'] is None else 'replaced'}, "
+                                              f"mtime {mtime - MTIME_BASE:+d} s): {d.detail}")]
+                break
+    finally:
+        if os.path.exists(path):
+            os.remove(path)
+    klass = (f"{case.get('family', 'hist/reimport')}/imports={len(steps)}/texts={contents + 1}/"
+             + ("mtime-not-newer" if stale else "mtime-newer"))
+    return Outcome(contents >= 1, klass, D)
+
+
+# ---- history 2: look up - re-configure the dictionary through its own interface - look up again ------------
+# "Looking an object up by index, by name, or by 'Parent.Child' reaches the same object" (anchor: the lookup
+# tables "must stay consistent" in add_object / add_member).  The imported dictionary is re-configured only
+# through the library's own ObjectDictionary interface and only in ways whose meaning is beyond doubt: an
+# object is replaced by one of the SAME index and name taken from a second imported dictionary
+# (od[index] = x / od[name] = x / od.add_object(x)), removed (del od[index] / del od[name]), put (back) under
+# an index and a name nobody uses, or a member is replaced by one of the same sub-index and name
+# (add_member).  Demanded after every step: every route reaches the identical object that was put there, and
+# a key that names nothing any more reaches nothing (KeyError).
+def _named_members(o):
+    if o["kind"] in ("record", "array"):
+        return [(m["sub"], m["name"]) for m in o["members"]]
+    if o["kind"] == "compact" and o["names"] is not None:
+        return [(k + 1, nm) for k, nm in enumerate(o["names"])]
+    return []
+
+
+class _Entry:
+    def __init__(self, o, obj, src):
+        self.o, self.obj, self.src = o, obj, src
+        self.index, self.name = o["index"], o["name"]
+        # members reached on the held object itself (not through the dictionary)
+        self.members = {sub: (nm, obj[sub]) for sub, nm in _named_members(o)}
+
+
+def _check_routes(od, cur, dummies, dead, c):
+    want = set(cur) | set(dummies)
+    if set(od.indices) != want or sorted(od) != sorted(want) or len(od) != len(want):
+        return c.bad("reconfigure/objects", f"indices {sorted(od.indices)} want {sorted(want)}")
+    live = set()
+    for e in cur.values():
+        live |= {e.index, e.name}
+        live |= {e.name + "." + nm for nm, _v in e.members.values()}
+    for e in cur.values():
+        for key in (e.index, e.name):
+            try:
+                r = od[key]
+            except KeyError:
+                return c.bad("lookup/name", f"od[{key!r}] raises KeyError, {e.index:04X} {e.name!r} is there")
+            if r is not e.obj or key not in od:
+                return c.bad("lookup/name", f"od[{key!r}] is {r!r}, not the object put at {e.index:04X}")
+        for sub, (nm, mv) in sorted(e.members.items()):
+            c.member_lookups(od, e.obj, e.o, sub, nm, mv)
+            if c.D:
+                return
+    names_now = {e.name: e for e in cur.values()}
+    for key in sorted(dead - live, key=str):
+        if isinstance(key, str) and "." in key:
+            parent = names_now.get(key.split(".", 1)[0])
+            if parent is not None and parent.o["kind"] in ("var", "domain"):
+                continue                     # 'Var.x': a variable has no children; no statement about the error
+            if parent is not None and parent.o["kind"] == "compact" and parent.o["names"] is None:
+                continue                     # names of synthesized elements are not checked (ASSUMPTIONS)
+        try:
+            r = od[key]
+        except KeyError:
+            continue
+        shown = f"{key:#x}" if isinstance(key, int) else repr(key)
+        return c.bad("lookup/stale", f"od[{shown}] still reaches {r!r}; nothing with that key is in the "
+                                     f"dictionary (by index: {sorted(f'{i:04X}' for i in cur)})")
+
+
+def run_reconfigure(case) -> Outcome:
+    A, B = case["model"], case["model2"]
+    for m in (A, B):
+        ex = em.excluded_class(m)
+        if ex:
+            return Outcome(excluded=ex)
+    nt = _features_nt(A)
+    family = case.get("family", "hist/reconfigure")
+    od, D = _import_and_compare(A, case)             # looks every 'Parent.Child' up at least once
+    if D:
+        return Outcome(bool(nt), family + "/import", D)
+    od2, D = _import_and_compare(B, dict(case, source="stream"))
+    if D:
+        return Outcome(bool(nt), family + "/import", D)
+    c = _Cmp(A, case["node_arg"])
+    pools = {"A": [(o, od[o["index"]]) for o in A["objects"]],
+             "B": [(o, od2[o["index"]]) for o in B["objects"]]}
+    cur = {o["index"]: _Entry(o, obj, "A") for o, obj in pools["A"]}
+    dead = set()
+    applied = []
+
+    def retire(e):
+        dead.update({e.index, e.name})
+        if "." not in e.name:
+            dead.update(e.name + "." + nm for nm, _v in e.members.values())
+
+    try:
+        for op in case["ops"]:
+            what = op["op"]
+            if what == "put":
+                pool = pools[op["src"]]
+                o, obj = pool[op["k"] % len(pool)]
+                old = cur.get(o["index"])
+                names = {e.name for e in cur.values()}
+                if old is not None:
+                    if old.name != o["name"] or old.obj is obj:
+                        continue                     # other name (stale name: no statement) / nothing to do
+                elif o["name"] in names or o["index"] in (A["dummies"] or []):
+                    continue
+                mine = {o["name"]} | {o["name"] + "." + nm for _s, nm in _named_members(o)}
+                others = set()
+                for e in cur.values():
+                    if e is not old:
+                        others |= {e.name} | {e.name + "." + nm for nm, _v in e.members.values()}
+                if mine & others:
+                    continue                         # a 'Parent.Child' string equal to another key: ambiguous
+                if obj.name != o["name"] or obj.index != o["index"]:
+                    raise AssertionError("held object does not carry the described index/name")
+                via = op.get("via", 0) % 3
+                if via == 0:
+                    od[o["index"]] = obj
+                elif via == 1:
+                    od[o["name"]] = obj
+                else:
+                    od.add_object(obj)
+                if old is not None:
+                    retire(old)
+                cur[o["index"]] = _Entry(o, obj, op["src"])
+                applied.append("replace" if old is not None else "add")
+            elif what == "del":
+                if not cur:
+                    continue
+                index = sorted(cur)[op["k"] % len(cur)]
+                e = cur.pop(index)
+                if op.get("via", 0) % 2:
+                    del od[e.name]
+                else:
+                    del od[index]
+                retire(e)
+                applied.append("del")
+            elif what == "member":
+                # replace one member by the member of the same sub-index and name of the counterpart object
+                cands = []
+                for index in sorted(cur):
+                    e = cur[index]
+                    if e.o["kind"] not in ("record", "array"):
+                        continue
+                    for src in ("A", "B"):
+                        for o2, obj2 in pools[src]:
+                            if o2["index"] != index or obj2 is e.obj or o2["kind"] not in ("record", "array"):
+                                continue
+                            for m2 in o2["members"]:
+                                have = e.members.get(m2["sub"])
+                                if have is not None and have[0] == m2["name"] and \
+                                        have[1] is not obj2[m2["sub"]]:
+                                    cands.append((e, m2["sub"], m2["name"], obj2[m2["sub"]]))
+                if not cands:
+                    continue
+                e, sub, nm, donor = cands[op["k"] % len(cands)]
+                e.obj.add_member(donor)
+                e.members[sub] = (nm, donor)
+                applied.append("member")
+            else:
+                raise ValueError(what)
+            _check_routes(od, cur, A["dummies"] or [], dead, c)
+            if c.D:
+                d = c.D[0]
+                c.D = [Discrepancy(d.signature, f"after {'+'.join(applied)} ({len(applied)} re-configuration "
+                                                f"step(s) on the imported dictionary): {d.detail}")]
+                break
+    except AssertionError:
+        raise
+    except Exception as e:                           # the dictionary itself misbehaves
+        c.bad(f"reconfigure-raises/{type(e).__name__}", f"after {'+'.join(applied)}: {type(e).__name__}: {e}")
+    kinds = "+".join(sorted(set(applied))) or "none"
+    return Outcome(bool(applied), f"{family}/{kinds}/steps={min(len(applied), 5)}", c.D)
 
 
 # ---- enumerated families -----------------------------------------------------
@@ -745,6 +1042,14 @@ def cases(draw):
         for o in objs:
             if o["kind"] == "compact" and o["names"] is None and o["var"]["pdo"] == 0 and draw(_BOOL):
                 o["var"]["pdo"] = 1
+    if wide & 0x300 == 0x300:                        # TIME_OF_DAY / TIME_DIFFERENCE objects with values
+        for _o, v in em.all_vars(model):
+            if _o["kind"] != "domain" and draw(_BOOL):
+                v["dt"] = TIME_TYPES[draw(_PICK) % 2]
+                v["low"] = v["high"] = None
+                v["default"] = {"k": "int", "v": draw(_TIME_VALUE)} if draw(_SMALL4) else None
+                v["value"] = ({"k": "int", "v": draw(_TIME_VALUE)}
+                              if draw(_BOOL) and _o["kind"] != "compact" else None)
     if wide & 0x80:                                  # flags / data types in every number spelling
         respell(model, draw(_SPELL))
     return {"model": model, "node_arg": node_arg,
@@ -754,6 +1059,211 @@ def cases(draw):
             "crlf": (flags >> 7) & 3 == 3,
             "omit_arg": bool((flags >> 9) & 1),
             "family": "hyp"}
+
+
+# ---- TIME_OF_DAY / TIME_DIFFERENCE values, histories ------------------------------------------------------
+TIME_VALUES = [0, 1, 9, 10, 16, 20, 99, 255, 256, 1000, 86399999, 86400000, (1 << 28) - 1, 1 << 28, 1 << 32,
+               (1 << 32) + 20, 0x100010, (1 << 47) + 1, (1 << 48) - 1]
+_TIME_VALUE = st.one_of(st.sampled_from(TIME_VALUES), st.integers(0, (1 << 48) - 1), st.integers(0, 100000))
+
+
+def enum_time(tier):
+    """"default and parameter values" for "all data types": the two 48-bit time types, every number spelling,
+    at every place a value can stand (VAR, record member, array member, compact element; EDS and DCF)."""
+    n = 0
+    for dt in TIME_TYPES:
+        for val in TIME_VALUES:
+            forms = em.uint_forms(val, 12)[:5]
+            for fi, form in enumerate(forms if tier == "thorough" else
+                                      [forms[(n + k) % 5] for k in (0, 2)] + ([str(val)] if val >= 10 else [])):
+                n += 1
+                place = n % 4
+                doc = "dcf" if n % 3 else "eds"
+                other = TIME_VALUES[(n * 7) % len(TIME_VALUES)]
+                spec, spec2 = {"k": "int", "v": val}, {"k": "int", "v": other}
+                raw = {"DefaultValue": form, "ParameterValue": em.uint_forms(other, 12)[(n + fi) % 5]}
+                if place == 0:
+                    v = _var(dt, default=spec, value=spec2, raw=raw, sp=n)
+                    objs = [_top(0x2000 + dt, "t", v)]
+                elif place in (1, 2):
+                    members = [_var(rc.UNSIGNED8, sub=0, name="n", access="ro"),
+                               _var(dt, sub=1 + n % 5, name="when", default=spec, value=spec2, raw=raw, sp=n)]
+                    if place == 2:
+                        members.append(_var(dt, sub=7, name="then", default=spec2, sp=n + 1))
+                    objs = [_rec(0x2000 + dt, "r", members, kind="record" if place == 1 else "array", sp=n)]
+                else:
+                    objs = [{"kind": "compact", "index": 0x2000 + dt, "name": "c", "sp": n, "storage": None,
+                             "var": _var(dt, sub=1, default=spec, raw={"DefaultValue": form}), "n": 1 + n % 4,
+                             "names": [None, ["e1", "e2", "e3", "e4"][:1 + n % 4]][(n // 4) % 2],
+                             "n_hex": False}]
+                yield _case(_model(objs, doc=doc), "enum/time")
+
+
+def _simple_models(doc):
+    """Small dictionaries that differ from each other in every clause of the statement."""
+    def n0():
+        return _var(rc.UNSIGNED8, sub=0, name="n", access="ro")
+    a = _model([_rec(0x2000, "rec", [n0(), _var(rc.UNSIGNED16, sub=1, name="m", default={"k": "int", "v": 7}),
+                                     _var(rc.UNSIGNED16, sub=2, name="old", access="ro")]),
+                _top(0x2001, "v", _var(rc.UNSIGNED32, default={"k": "rel", "x": 0x180})),
+                _rec(0x2002, "arr", [n0(), _var(rc.INTEGER8, sub=1, name="e1"), _var(rc.INTEGER8, sub=2, name="e2")],
+                     kind="array")],
+               doc=doc, comments=["first text"], devinfo={"VendorName": "one", "Granularity": 8}, baud=[125])
+    b = _model([_rec(0x2000, "rec", [n0(), _var(rc.INTEGER32, sub=1, name="m", access="ro", pdo=1,
+                                                default={"k": "int", "v": -7}, low={"k": "int", "v": -9}),
+                                     _var(rc.REAL32, sub=3, name="new")]),
+                _top(0x2001, "v", _var(rc.INTEGER16, access="const", default={"k": "int", "v": -2})),
+                _rec(0x2002, "arr", [n0(), _var(rc.UNSIGNED24, sub=1, name="e1", pdo=1),
+                                     _var(rc.UNSIGNED24, sub=2, name="e2", pdo=1)], kind="array"),
+                {"kind": "compact", "index": 0x2003, "name": "cmp", "sp": 0, "storage": None,
+                 "var": _var(rc.UNSIGNED16, sub=1, pdo=1), "n": 2, "names": ["c1", "c2"], "n_hex": False}],
+               doc=doc, comments=["second", "text"], devinfo={"VendorName": "two", "Granularity": 16},
+               baud=[250, 500])
+    c = _model([_top(0x2000, "rec", _var(rc.UNSIGNED8)), _top(0x3000, "w", _var(rc.VISIBLE_STRING,
+                                                                                 default={"k": "str", "v": "x"}))],
+               doc=doc)
+    if doc == "dcf":
+        a["commissioning"] = {"node_id": 5, "baudrate": 125, "baud_hex": False}
+        b["commissioning"] = {"node_id": 9, "baudrate": 500, "baud_hex": False}
+    return a, b, c
+
+
+def _steps_case(steps, family="hist/reimport", **kw):
+    c = {"steps": steps, "suffix": 0, "base": 0, "crlf": False, "family": family}
+    c.update(kw)
+    return c
+
+
+def _step(model, node_arg=None, source="path", mtime=0):
+    return {"model": model, "node_arg": node_arg, "source": source, "mtime": mtime}
+
+
+def enum_histories(tier):
+    # one path: text X imported, replaced by text Y (time stamp older / equal / newer), imported again, ...
+    for doc in ("eds", "dcf"):
+        a, b, c = _simple_models(doc)
+        for mt in range(len(MTIME_STEPS)):
+            for x, y in ((a, b), (b, a), (a, c), (c, b)):
+                yield _steps_case([_step(x, 3), _step(y, 3, mtime=mt)])
+                yield _steps_case([_step(x), _step(None, 17), _step(y, 4, mtime=mt), _step(None, None)],
+                                  suffix=mt % 3, base=mt % 4)
+            yield _steps_case([_step(a, 1), _step(b, 2, mtime=3), _step(c, 3, mtime=mt), _step(a, 4, mtime=mt)])
+            yield _steps_case([_step(a, 1, "file"), _step(b, 2, "path", mtime=mt), _step(c, 3, "file", mtime=mt),
+                               _step(b, 4, "path", mtime=mt)], crlf=True)
+    # one dictionary: looked up, re-configured through its own interface, looked up again
+    for doc in ("eds", "dcf"):
+        a, b, c = _simple_models(doc)
+        seqs = []
+        for via in range(3):
+            seqs.append([{"op": "put", "src": "B", "k": 0, "via": via}])
+            seqs.append([{"op": "put", "src": "B", "k": 2, "via": via}, {"op": "put", "src": "A", "k": 2, "via": via}])
+        for via in range(2):
+            for k in range(3):
+                seqs.append([{"op": "del", "k": k, "via": via}])
+            seqs.append([{"op": "del", "k": 0, "via": via}, {"op": "put", "src": "B", "k": 0, "via": via}])
+            seqs.append([{"op": "del", "k": 0, "via": via}, {"op": "put", "src": "A", "k": 0, "via": 2}])
+        seqs.append([{"op": "member", "k": 0}])
+        seqs.append([{"op": "member", "k": 1}, {"op": "member", "k": 0}, {"op": "del", "k": 0, "via": 0}])
+        seqs.append([{"op": "put", "src": "B", "k": 3, "via": 2}, {"op": "del", "k": 3, "via": 1},
+                     {"op": "put", "src": "B", "k": 3, "via": 0}])
+        seqs.append([{"op": "put", "src": "B", "k": k, "via": k} for k in range(4)] +
+                    [{"op": "put", "src": "A", "k": k, "via": k + 1} for k in range(3)])
+        for ops in seqs:
+            yield dict(_case(a, "hist/reconfigure", node_arg=3), model2=b, ops=ops)
+        for ops in seqs[:6]:
+            yield dict(_case(b, "hist/reconfigure", node_arg=None, source="path"), model2=a, ops=ops)
+            yield dict(_case(a, "hist/reconfigure", node_arg=3), model2=c, ops=ops)
+
+
+_MT = st.integers(0, len(MTIME_STEPS) - 1)
+_NODE = st.one_of(st.none(), st.integers(1, 127))
+_SRC = st.sampled_from(["path", "path", "path", "file"])
+
+
+@st.composite
+def reimport_cases(draw, max_steps=4):
+    doc = draw(em._DOC)
+    n = draw(st.integers(2, max_steps))
+    steps = []
+    pool = []
+    for k in range(n):
+        how = draw(st.integers(0, 5)) if k else 0
+        if how == 5:
+            model = None                                    # text kept, imported once more (other node id)
+        elif how == 4 and len(pool) >= 2:
+            model = pool[draw(_PICK) % (len(pool) - 1)]     # an earlier text comes back (restored backup)
+        else:
+            model = draw(em.models(doc=doc, quirks=True, max_objects=3, max_members=6))
+            pool.append(model)
+        steps.append(_step(model, draw(_NODE), draw(_SRC), draw(_MT)))
+    flags = draw(st.integers(0, 0xFF))
+    return _steps_case(steps, suffix=[0, 0, 1, 2][flags & 3], base=[0, 0, 1, 2, 3, 0, 0, 0][(flags >> 2) & 7],
+                       crlf=(flags >> 5) == 7)
+
+
+def _graft(draw, a, b):
+    """Give objects of `b` the index and name (and member names) of objects of `a`: the same keys, other
+    content."""
+    import copy
+    used = {o["index"] for o in b["objects"]}
+    order = list(range(len(a["objects"])))
+    for k, o2 in enumerate(b["objects"]):
+        if not order or draw(_SMALL4) == 0:
+            continue
+        o = a["objects"][order.pop(draw(_PICK) % len(order))]
+        if o["index"] != o2["index"] and o["index"] in used:
+            continue
+        used.discard(o2["index"])
+        used.add(o["index"])
+        o2["index"], o2["name"] = o["index"], o["name"]
+        names = [nm for _s, nm in _named_members(o)]
+        if not names:
+            continue
+        if o2["kind"] in ("record", "array"):
+            same_subs = o["kind"] in ("record", "array") and draw(_BOOL)
+            for p, m2 in enumerate(o2["members"]):
+                if p < len(names) and draw(_SMALL4):
+                    m2["name"] = names[p]
+                    if same_subs and p and o["members"][p]["sub"] not in {m["sub"] for m in o2["members"]}:
+                        m2["sub"] = o["members"][p]["sub"]
+            o2["members"].sort(key=lambda m: m["sub"])
+        elif o2["kind"] == "compact" and o2["names"] is not None:
+            o2["names"] = [names[p] if p < len(names) and draw(_SMALL4) else nm
+                           for p, nm in enumerate(o2["names"])]
+    if draw(_SMALL4) == 0 and a["objects"]:
+        # the same object once more with other content: a deep copy whose variables are redrawn below
+        o = copy.deepcopy(a["objects"][draw(_PICK) % len(a["objects"])])
+        if o["index"] not in used and o["kind"] in ("record", "array"):
+            for m in o["members"][1:]:
+                m["access"] = em.ACCESS[draw(_PICK) % len(em.ACCESS)]
+                m["pdo"] = draw(_PICK) % 2
+            b["objects"].append(o)
+    em.fix_names(b["objects"])
+
+
+_SMALL4 = st.integers(0, 3)
+_OP = st.sampled_from(["put", "put", "put", "del", "del", "member"])
+
+
+@st.composite
+def reconfigure_cases(draw, max_ops=5):
+    a = draw(em.models(quirks=True, max_objects=4, max_members=6))
+    b = draw(em.models(doc=a["doc"], quirks=True, max_objects=4, max_members=6))
+    b["dummies"] = None
+    _graft(draw, a, b)
+    ops = []
+    for _ in range(draw(st.integers(1, max_ops))):
+        what = draw(_OP)
+        op = {"op": what, "k": draw(st.integers(0, 7))}
+        if what == "put":
+            op["src"] = draw(st.sampled_from(["B", "B", "A"]))
+        if what != "member":
+            op["via"] = draw(st.integers(0, 2))
+        ops.append(op)
+    c = _case(a, "hist/reconfigure", node_arg=draw(_NODE), source=draw(st.sampled_from(["stream", "path"])))
+    c["model2"] = b
+    c["ops"] = ops
+    return c
 
 
 def _violation_in(exc):
@@ -773,12 +1283,12 @@ def _violation_in(exc):
     return None
 
 
-def hyp_chunks(ctx, strategy, total, chunk):
+def hyp_chunks(ctx, strategy, total, chunk, salt0=0):
     """Hypothesis part in chunks (own seed each).  The time budget is looked at between
     chunks only: core's in-test budget check would otherwise (a) keep generating all
     remaining examples after the budget ran out and (b) turn a genuine failure into a
     'flaky' harness error when the budget runs out while Hypothesis is shrinking it."""
-    salt = 0
+    salt = salt0
     while total > 0 and not ctx.over_budget():
         n = min(chunk, total)
         saved, ctx.budget_s = ctx.budget_s, None
@@ -805,8 +1315,18 @@ def search(ctx):
                   "number spellings; comment blocks of 0..30, 99..101 lines (thorough 0..120); indices "
                   "0xA000..0xFFFF x every kind x both hex digit cases; near-miss names (letter case / one "
                   "character) at every level a name is a lookup key")
-    total, chunk = (20000, 500) if ctx.tier == "thorough" else (1800, 300)
+    ctx.enumerate(enum_time(ctx.tier),
+                  "TIME_OF_DAY / TIME_DIFFERENCE default and parameter values: 19 values x number spellings x "
+                  "VAR / record member / array member / compact element x EDS / DCF")
+    ctx.enumerate(enum_histories(ctx.tier),
+                  "one path imported again after its text was replaced (time stamp older / equal / newer, text "
+                  "kept, node id changed, path / open file); one imported dictionary looked up, re-configured "
+                  "through its own interface (replace / remove / add / add_member), looked up again")
+    thorough = ctx.tier == "thorough"
+    total, chunk = (20000, 500) if thorough else (1800, 300)
     hyp_chunks(ctx, cases(), total, chunk)
+    hyp_chunks(ctx, reimport_cases(6 if thorough else 4), 1500 if thorough else 200, 100, salt0=1000)
+    hyp_chunks(ctx, reconfigure_cases(8 if thorough else 5), 3000 if thorough else 300, 150, salt0=2000)
     if _feature_counts and ctx.shard == 0:
         ctx.notes.append("shard 0 feature counts (cases containing the feature): " +
                          ", ".join(f"{k}={v}" for k, v in sorted(_feature_counts.items())))
